@@ -277,6 +277,12 @@ func levelGuarded(l leafAt, lc levelCheck) bool {
 
 // c11CompareDeviations: the decisions under which mavenutil.CompareVersions does not return
 // semver's own comparison (regenerate candidates with SCALINT_LEARN=1, confirm each by reading).
+// c11ParsedSkips: the decisions under which getVersionsGreater does not record a parsed version.
+var c11ParsedSkips = []string{
+	"deps.dev/util/semver.System.Parse(deps.dev/util/resolve.System.Semver(param2.PackageKey.System),deps.dev/util/resolve.Client.Versions(param1,param0,param2.PackageKey)#0[ι].VersionKey.Version)#1 != nil:error",
+	"range-end: deps.dev/util/resolve.Client.Versions(param1,param0,param2.PackageKey)#0",
+}
+
 var c11CompareDeviations = []string{
 	"nil:*deps.dev/util/semver.Version == param1", // an unparsable version sorts first
 	"nil:*deps.dev/util/semver.Version == param2",
@@ -315,6 +321,20 @@ func runC11(p *Prog, r *Report) {
 	} else {
 		r.Undecided("D9-ecosystem-order", "anchor:mavenutil.CompareVersions", "-", "not found")
 	}
+	// D3 additionally: every version the registry lists is ordered by its parsed form, unless it
+	// does not parse — a version left unparsed on purpose (a "never propose pre-releases" filter)
+	// sorts below everything, the vulnerable version itself included when it is one, and the
+	// "versions greater than the current one" then start below the current one
+	if gv := p.Func("guidedremediation/internal/strategy/override", "getVersionsGreater"); gv != nil {
+		frozenSkips(p, r, "D3-right-base", "override.getVersionsGreater:parsed-versions", gv, func(in ssa.Instruction) bool {
+			mu, ok := in.(*ssa.MapUpdate)
+			return ok && strings.Contains(typeShort(mu.Map.Type()), "semver.Version")
+		}, c11ParsedSkips, "GVPARSE", "a version of the package is left out of the parsed-version table that getVersionsGreater sorts and searches with, for a reason other than 'it does not parse': it compares as the lowest version, and when it is the version in use the candidates start below it (a downgrade is proposed)")
+	} else {
+		r.Undecided("D3-right-base", "anchor:override.getVersionsGreater", "-", "not found")
+	}
+	r.Rule("D10-requirement-identity", "the requirement that is moved is the one that was analysed: old and new requirements are paired by RequirementKey (shared with C12)")
+	requirementsPairedByKey(p, r, "D10-requirement-identity")
 	r.Rule("D8-config-strings", "package:level strings are split at the last colon")
 	c11LastColon(p, r, "D8-config-strings")
 	n := 0
